@@ -296,6 +296,27 @@ def run(ck):
         lw.append(('r2047', b'=?x?Q?' + (b'a=41_b' * n)[:n] + b'?='))
         lw.append(('r2047', b'=?' + b'c' * n + b'?q?' + b'=5F' * (n % 7) + b'?= =?x?b?' + enc[:n - n % 4] + b'?='))
     compare(ck, lw, drv, model, 'encoded words of every length up to 300', stats)
+    # the decoders keep no memory of earlier inputs: large inputs (bodies of 3 - 70 KiB) in the middle of a sequence decoded by ONE process,
+    # small ones after them.  Judged against the reference decoder only (the extracted model is quadratic on inputs of this size).
+    big = []
+    for nbytes in (3000, 49000, 49152, 70000):
+        raw = bytes((i * 13 + nbytes) % 251 for i in range(nbytes))
+        big.append(('b64', _b64.encodebytes(raw)))
+        big += [('b64', b'Zm9v'), ('b64', b'Zh=='), ('r2047', b'Re: =?UTF-8?B?Zm9v?= =?UTF-8?Q?bar?='), ('qp', b'a=3Db=\nc')]
+        big.append(('qp', b''.join(b'=%02X' % (c % 256) if c % 5 else b'x' for c in range(nbytes // 3))))
+        big += [('qp', b'caf=C3=A9'), ('b64', b'QUJD\nREVG'), ('r2047', b'=?x?q?a=5Fb?= =?x?B?QUJD?=')]
+    blines = ['%s %s' % (fn, hexs(x)) for fn, x in big]
+    bimpl, br = common.run_lines(drv, blines, timeout=600)
+    if len(bimpl) != len(blines):
+        ck.violation('decode.h driver died on the large-input sequence (exit %s)' % br.returncode, {'stream': 'large-then-small'})
+    else:
+        for idx, ((fn, x), a_) in enumerate(zip(big, bimpl)):
+            stats['evaluations'] += 1
+            ref = ref_line(fn, x)
+            if a_ != ref:
+                ck.violation('%s on input %d of a sequence decoded by one process (%d bytes, after larger inputs): implementation returns %s..., RFC reference %s...'
+                             % (fn, idx, len(x), a_[:60], ref[:60]), {'function': fn, 'sequence_index': idx, 'stream': 'large-then-small', 'input_len': len(x)})
+                break
     nrand = 4000 if ck.tier == 'quick' else 200000
     rnd = []
     for i in range(nrand):
@@ -310,7 +331,7 @@ def run(ck):
     ck.coverage.update({
         'evaluations': stats['evaluations'],
         'distinct_nontrivial': len(stats['nontrivial']),
-        'rule': 'all strings of length <= %d over the alphabet %r for each of the 3 decoders (exhaustive), every Q encoded word whose payload is a string of that length over "=_5F23Dfa " and every B encoded word over "QUA=/ x" (alone and next to a second word), encoded words of every payload length 0-300 and 1000 / 4000 / 9000 (B whole quanta, B cut anywhere, Q, long charset), '
+        'rule': 'all strings of length <= %d over the alphabet %r for each of the 3 decoders (exhaustive), every Q encoded word whose payload is a string of that length over "=_5F23Dfa " and every B encoded word over "QUA=/ x" (alone and next to a second word), encoded words of every payload length 0-300 and 1000 / 4000 / 9000 (B whole quanta, B cut anywhere, Q, long charset), base64 / quoted-printable inputs of 3-70 KiB each followed by small inputs in the same process, '
                 'plus %d structured random strings per decoder (valid quanta, padding variants, foreign characters, '
                 'truncations, encoded-word fragments); non-trivial = contains >= 2 alphabet characters (b64), an "=" (qp), '
                 'an "=?" (rfc2047); distinct = distinct (decoder, input) pairs' % (maxlen, ALPHABET.decode(), nrand),
